@@ -365,9 +365,17 @@ func (e *Env) trySelect(s Struct, name string) (r Val) {
 func (e *Env) evalBinary(n *ast.BinaryExpr) Val {
 	switch n.Op {
 	case token.LAND:
-		return Bool{sAnd(e.evalBool(n.X), e.evalBool(n.Y))}
+		a := e.evalBool(n.X)
+		if v, ok := groundBool(a); ok && !v {
+			return Bool{"false"} // short circuit: the right operand may be undefined here
+		}
+		return Bool{sAnd(a, e.evalBool(n.Y))}
 	case token.LOR:
-		return Bool{sOr(e.evalBool(n.X), e.evalBool(n.Y))}
+		a := e.evalBool(n.X)
+		if v, ok := groundBool(a); ok && v {
+			return Bool{"true"}
+		}
+		return Bool{sOr(a, e.evalBool(n.Y))}
 	}
 	a, b := e.eval(n.X), e.eval(n.Y)
 	return binop(n.Op, a, b, exprString(n))
@@ -507,7 +515,11 @@ func (e *Env) evalCall(n *ast.CallExpr) Val {
 	}
 	switch fname {
 	case "implies_":
-		return Bool{sImp(e.evalBool(n.Args[0]), e.evalBool(n.Args[1]))}
+		a := e.evalBool(n.Args[0])
+		if v, ok := groundBool(a); ok && !v {
+			return Bool{"true"} // short circuit: the consequent may be undefined here
+		}
+		return Bool{sImp(a, e.evalBool(n.Args[1]))}
 	case "iff_":
 		return Bool{sEq(e.evalBool(n.Args[0]), e.evalBool(n.Args[1]))}
 	case "forall_", "exists_":
@@ -566,6 +578,17 @@ func (e *Env) evalCall(n *ast.CallExpr) Val {
 		}
 		name, _ := strconv.Unquote(lit.Value)
 		return Int{strconv.Itoa(e.st.calls[name])}
+	case "lastresult":
+		// lastresult("name"): first result of the most recent returned call to that source-level callee
+		lit, ok := n.Args[0].(*ast.BasicLit)
+		if !ok {
+			evalFail("lastresult needs a string literal")
+		}
+		name, _ := strconv.Unquote(lit.Value)
+		if v, ok := e.st.lastRes[name]; ok {
+			return v
+		}
+		evalFail("lastresult(%q): no such call has returned on this path", name)
 	case "deferred":
 		if e.fr == nil {
 			evalFail("deferred() outside a function body")
